@@ -162,6 +162,12 @@ func addCycle(g *G, L *Layout) {
 				fmt.Fprintf(&b, "  dep_%d:\n    image: x\n    network_mode: \"service:%s\"\n", i, next)
 			}
 		}
+		// services that lead into the cycle without being on it (their names sort before and after the ring)
+		for _, tail := range []string{"aaa_tail", "zzz_tail"} {
+			if g.chance("dep-tail", 1, 2) {
+				fmt.Fprintf(&b, "  %s:\n    image: x\n    depends_on: [dep_%d]\n", tail, g.n("dep-tail-to", n))
+			}
+		}
 		L.Files[main] = b.String()
 		L.Main = L.Main[:1]
 		L.Cycle = "depends_on"
@@ -248,6 +254,11 @@ func planFaults(g *G, L *Layout, events []zsimrt.IOEvent, stubCalls int) ([]*zsi
 	for _, e := range events {
 		if pathOps[e.Op] {
 			cands = append(cands, e)
+			// faults are biased towards the files a document references explicitly besides compose files
+			// (env files, label files, include env files): that is where "silently skipped" lives
+			if strings.HasSuffix(e.Path, ".env") || strings.HasSuffix(e.Path, ".label") {
+				cands = append(cands, e, e, e)
+			}
 			if e.Op == "readfile" || e.Op == "open" {
 				reads[e.Path]++
 			}
@@ -291,6 +302,9 @@ func planFaults(g *G, L *Layout, events []zsimrt.IOEvent, stubCalls int) ([]*zsi
 			}
 		}
 		f.Kind = g.pick("fault-kind", kinds)
+		if (strings.HasSuffix(e.Path, ".env") || strings.HasSuffix(e.Path, ".label")) && g.chance("absent-from-start", 1, 3) {
+			f.Kind = "enoent" // the plain "file is not there" case, from the start (decided below)
+		}
 		data := L.Files[e.Path]
 		switch f.Kind {
 		case "short", "eio-read", "torn":
@@ -583,7 +597,14 @@ func markEnvFiles(L *Layout) {
 						next = rest2
 					}
 				}
-				if strings.Contains(next, "\"required\": false") {
+				// the entry is a small mapping {path, required, format} whose keys may come in any order
+				prevLine := ""
+				if ls := strings.LastIndexByte(txt[:i], '\n'); ls > 0 {
+					if ps := strings.LastIndexByte(txt[:ls], '\n'); ps >= 0 {
+						prevLine = txt[ps+1 : ls]
+					}
+				}
+				if strings.Contains(next, "\"required\": false") || strings.Contains(prevLine, "\"required\": false") {
 					continue
 				}
 				req = true
